@@ -78,10 +78,14 @@ void AbstractParameterAliasable::aliasParameters(const std::string& p1, const st
     throw Exception("AbstractParameterAliasable::aliasParameters. Parameter " + p2 + " does not exist in independent parameters. Perhaps it is already aliased to a parameter and can't be aliased twice.");
 
   string id = "__alias_" + p2 + "_to_" + p1;
-  string idCheck = "__alias_" + p1 + "_to_" + p2;
 
-  if (aliasListenersRegister_.find(idCheck) != aliasListenersRegister_.end())
-    throw Exception("AbstractParameterAliasable::aliasParameters. Trying to alias parameter " + p2 + " to " + p1 + ", but parameter " + p1 + " is already aliased to parameter " + p2 + ".");
+  // The link must not close a cycle: p2 can be neither p1 itself nor one of the parameters
+  // p1 is aliased to, directly or through a chain of any length.
+  for (string from = p1; from != ""; from = getFrom(getNamespace() + from))
+  {
+    if (from == p2)
+      throw Exception("AbstractParameterAliasable::aliasParameters. Trying to alias parameter " + p2 + " to " + p1 + ", but parameter " + p1 + " is already aliased to parameter " + p2 + " (directly or through other parameters).");
+  }
   Parameter* param1 = &getParameter_(p1);
   Parameter* param2 = &getParameter_(p2);
 
